@@ -9,6 +9,7 @@ CONSTANTS
   WN = 3
   WithExpiry = TRUE
   WithClose = FALSE
+  QueueGuardedClose = TRUE
   AtomicExpiry = TRUE
   NotifyOnExit = "always"
 INVARIANTS Inv_AtMostOnce Inv_RejectedNeverRun Inv_MaxConcurrent Inv_Counts Inv_HandlerOnlyJobPanics
